@@ -284,11 +284,12 @@ def is_mem(v):
 
 
 class NumAnalysis:
-    def __init__(self, fn, prog=None, hyps=None, entry_hook=None, max_disj=MAX_DISJ, pure_calls=(), partition_discr=False, ret_summary=None, local_inv=None):
+    def __init__(self, fn, prog=None, hyps=None, entry_hook=None, max_disj=MAX_DISJ, pure_calls=(), partition_discr=False, ret_summary=None, local_inv=None, call_hook=None):
         self.fn = fn
         self.prog = prog
         self.hyps = hyps or []
         self.entry_hook = entry_hook
+        self.call_hook = call_hook
         # partition_discr: start from one entry state per combination of the variants of (at most 3) Option/Result/enum
         # places reached from parameters whose discriminant the body tests - makes `usize::from(x.is_some())` exact per path
         self.partition_discr = partition_discr
@@ -936,6 +937,35 @@ class NumAnalysis:
             self.oblige(b, "call", "split_at:mid<=len", hi <= 0, "mid %s <= len %s" % (fmt_itv(m), fmt_itv(a)))
             self.kill_tree(st, dpl[0], dpl[1])
             return
+        m_sl = re.match(r"^core::slice::<impl \[T\]>::(get|first|last)(?:_mut)?$", callee)
+        if m_sl and args and discr_var(dpl) is not None:
+            return self.slice_option_call(st, b, c, m_sl.group(1), args, dpl)
+        if re.search(r"^<std::option::Option<T> as std::ops::Try>::branch$", callee) and len(args) == 1:
+            # ControlFlow: Continue = 0 (from Some = 1, payload copied), Break = 1 (from None = 0)
+            pj = args[0].get("mv") or args[0].get("cp")
+            self.kill_tree(st, dpl[0], dpl[1])
+            dv = discr_var(dpl)
+            if pj is not None and dv is not None and discr_var(mk_place(pj)) is not None:
+                spl = mk_place(pj)
+                sd = discr_var(spl)
+                # dv = 1 - sd
+                some = st.copy()
+                self.refine_cmp(some, "Eq", sd, ("c", 1), True)
+                self.refine_cmp(st, "Eq", sd, ("c", 0), True)
+                st.z.set_interval(dv, 1, 1)
+                out = []
+                if not some.z.bottom:
+                    some.z.set_interval(dv, 0, 0)
+                    self.copy_tree(some, (spl[0], spl[1] + (("dc", "Some"), ("f", "0"))), (dpl[0], dpl[1] + (("dc", "Continue"), ("f", "0"))))
+                    out.append(some)
+                return out
+            return
+        if re.search(r"as std::ops::FromResidual<std::option::Option<std::convert::Infallible>>>::from_residual$", callee):
+            self.kill_tree(st, dpl[0], dpl[1])
+            dv = discr_var(dpl)
+            if dv is not None and dty.startswith("std::option::Option<"):
+                st.z.set_interval(dv, 0, 0)
+            return
         m_is = re.search(r"(?:Option::<T>::(is_some|is_none)|Result::<T, E>::(is_ok|is_err))$", callee)
         if m_is and len(args) == 1 and dty == "bool":
             self.kill_tree(st, dpl[0], dpl[1])
@@ -1238,6 +1268,105 @@ class NumAnalysis:
             self.oblige(b, "call", "index:unknown-range", None, "slice index with " + rty)
             set_dest_len(dict(lo=0, hi=base["hi"], rel=[]))
 
+    def saturate(self, st):
+        """exchange bounds between a length defined as a difference (`len(&s[i..]) == len(s) - i`, kept symbolically as a "Diff"
+        entry because a zone cannot relate three variables) and the difference itself"""
+        for k, (op, a, b) in list(st.bools.items()):
+            if op != "Diff" or st.z.bottom:
+                continue
+            hi, lo = st.z.hi(k), st.z.lo(k)
+            if hi != INF:
+                st.z.add(a, b, hi)
+            if lo != -INF:
+                st.z.add(b, a, -lo)
+            d_hi, d_lo = st.z.get(a, b), -st.z.get(b, a)
+            if d_hi != INF:
+                st.z.add(k, Z, d_hi)
+            if d_lo != -INF:
+                st.z.add(Z, k, -d_lo)
+
+    def assume_le(self, st, a, b, k=0):
+        """refine st with a - b <= k for abstract values (exact relations only); intervals are refined through Z"""
+        for (va, alo, ahi) in a["rel"]:
+            for (vb, blo, bhi) in b["rel"]:
+                # a >= va + alo, b <= vb + bhi  =>  va - vb <= k - alo + bhi
+                if alo is not None and bhi is not None:
+                    st.z.add(va, vb, k - alo + bhi)
+        if a["lo"] - b["hi"] > k:
+            st.z.bottom = True
+        self.saturate(st)
+
+    def slice_option_call(self, st, b, c, which, args, dpl):
+        """`[T]::get(i | range)`, `first()`, `last()`: the result is `Some` exactly when the index is in bounds; the None outcome is a
+        separate state refined with the negated condition"""
+        base = self.ev_len_of_ref(st, args[0])
+        self.kill_tree(st, dpl[0], dpl[1])
+        dv = discr_var(dpl)
+        pay = (dpl[0], dpl[1] + (("dc", "Some"), ("f", "0")))
+        one = dict(lo=1, hi=1, rel=[(Z, 1, 1)])
+        none = st.copy()
+        res_len = None
+        diff_of = None
+        if which in ("first", "last"):
+            self.assume_le(st, one, base, 0)        # Some: 1 <= len
+            self.assume_le(none, base, one, -1)     # None: len <= 0
+        else:
+            aty = c["argtys"][1]
+            rj = args[1].get("mv") or args[1].get("cp")
+            if int_range(aty) is not None:
+                ix = self.ev_operand(st, args[1])
+                self.assume_le(st, ix, base, -1)    # Some: i < len
+                self.assume_le(none, base, self.ev_operand(none, args[1]), 0)
+            elif rj is not None and re.match(r"^std::ops::Range(From|To|Full)?<?", aty) and aty.split("<")[0].split("::")[-1] in ("RangeFrom", "RangeTo", "RangeFull"):
+                kind = aty.split("<")[0].split("::")[-1]
+                rpl = mk_place(rj)
+
+                def fld(s_, name):
+                    v = ("v", rpl[0], rpl[1] + (("f", name),))
+                    return dict(lo=max(0, s_.z.lo(v)), hi=min(2**64 - 1, s_.z.hi(v)), rel=[(v, 0, 0)])
+                if kind == "RangeFrom":
+                    s0 = fld(st, "start")
+                    self.assume_le(st, s0, base, 0)                    # Some: start <= len
+                    self.assume_le(none, base, fld(none, "start"), -1)  # None: len < start
+                    dlo, dhi = self.diff_bounds(st, base, s0)
+                    rel = []
+                    if s0["lo"] == s0["hi"]:
+                        rel = [(v, (lo_ - s0["lo"]) if lo_ is not None else None, (hi_ - s0["lo"]) if hi_ is not None else None) for v, lo_, hi_ in base["rel"]]
+                    else:
+                        rel = [(v, None, (hi_ - s0["lo"]) if hi_ is not None else None) for v, lo_, hi_ in base["rel"]]
+                    res_len = dict(lo=max(0, dlo), hi=dhi, rel=rel)
+                    bx = [v for v, lo_, hi_ in base["rel"] if lo_ == 0 and hi_ == 0 and v != Z]
+                    sx = [v for v, lo_, hi_ in s0["rel"] if lo_ == 0 and hi_ == 0 and v != Z]
+                    if bx and sx:
+                        diff_of = (bx[0], sx[0])
+                elif kind == "RangeTo":
+                    e0 = fld(st, "end")
+                    self.assume_le(st, e0, base, 0)
+                    self.assume_le(none, base, fld(none, "end"), -1)
+                    res_len = e0
+                else:
+                    none.z.bottom = True
+                    res_len = base
+            else:
+                # two-ended or unknown index kinds: outcome not decided (both possible, nothing learned)
+                st.z.set_interval(dv, 0, 1)
+                return None
+        st.z.set_interval(dv, 1, 1)
+        none.z.set_interval(dv, 0, 0)
+        if res_len is not None and is_slice_ref(_option_payload(self.place_ty(c["dest"])) or ""):
+            self.assign_int(st, ("len",) + pay, res_len, None, clamp=False)
+            if diff_of is not None:
+                st.bools[("len",) + pay] = ("Diff",) + diff_of
+        out = []
+        if not none.z.bottom:
+            out.append(none)
+        if st.z.bottom:
+            # the Some outcome is impossible: continue with the None state in place of st
+            if out:
+                n_ = out.pop()
+                st.z, st.bools, st.pend = n_.z, n_.bools, n_.pend
+        return out
+
     # ------------------------------------------------------------------ driver
     def init_state(self):
         st = St()
@@ -1388,6 +1517,7 @@ class NumAnalysis:
         outs = {}
 
         def emit(tgt, st):
+            self.saturate(st)
             if not st.z.bottom:
                 outs.setdefault(tgt, []).append(st)
         if "goto" in t:
@@ -1452,9 +1582,14 @@ class NumAnalysis:
         elif "call" in t:
             c = t["call"]
             for st in sts:
-                self.do_call(st, b, c)
+                extra = self.do_call(st, b, c)
+                if self.call_hook is not None:
+                    for s_ in [st] + list(extra or []):
+                        self.call_hook(self, s_, b, c)
                 if c["target"] is not None:
                     emit(c["target"], st)
+                    for s_ in extra or []:
+                        emit(c["target"], s_)
         elif "drop" in t:
             for st in sts:
                 emit(t["target"], st)
@@ -1479,6 +1614,11 @@ class NumAnalysis:
 NEG = {"Lt": "Ge", "Le": "Gt", "Gt": "Le", "Ge": "Lt", "Eq": "Ne", "Ne": "Eq"}
 PURE_PREFIXES = ("core::fmt::", "std::fmt::", "log::", "core::panicking::", "std::cmp::", "core::cmp::", "std::ops::Deref",
                  "core::slice::", "<managed::ManagedSlice")
+
+
+def _option_payload(ty):
+    m = re.match(r"^std::option::Option<(.*)>$", ty or "")
+    return m.group(1) if m else None
 
 
 def fmt_itv(a):
